@@ -184,6 +184,70 @@ Section Stop.
         exists (ONmi :: os), sf. split; [reflexivity|]. split; [exact Hgf|]. intro Ht. destruct (Himp Ht) as [Hx Hy].
         split; [rewrite <- Hs'; exact Hx | constructor; [discriminate | exact Hy]].
   Qed.
+  (* ---- "and never before", tied to the instruction: a Step changes the Stopped field only if it fetched opcode $DB.
+     [stp_fetched s]: the Step issued at state s fetches (after interrupt entry) the opcode $DB; proved per run for both
+     regenerated models from the trace characterisation of the callbacks clause (build/work/Run/C12_stop.v). ---- *)
+  Variable stp_fetched : S -> Prop.
+  Hypothesis stp_c : forall s b s', good s -> step s = Some (b, s') -> stopped s' <> stopped s -> stp_fetched s.
+
+  (* [no_stp h s]: no Step of the history h, run from s, fetches STP *)
+  Fixpoint no_stp (h : list call) (s : S) : Prop :=
+    match h with
+    | [] => True
+    | CStep :: h' => ~ stp_fetched s /\ match step s with Some (_, s') => no_stp h' s' | None => True end
+    | CReset :: h' => match reset s with Some s' => no_stp h' s' | None => True end
+    | CIrq :: h' => match irq s with Some s' => no_stp h' s' | None => True end
+    | CNmi :: h' => match nmi s with Some s' => no_stp h' s' | None => True end
+    end.
+
+  Definition all_false (os : list obs) : Prop := Forall (fun o => match o with OStep b => b = false | _ => True end) os.
+
+  (* from a state where the CPU is not stopped, as long as no Step fetches STP every Step reports "not stopped" (and
+     the field stays clear), whatever Resets and interrupt requests are interleaved *)
+  Theorem stop_never_before : forall h s, good s -> stopped s = false -> no_stp h s ->
+    exists os sf, hrun h s = Some (os, sf) /\ good sf /\ stopped sf = false /\ all_false os.
+  Proof.
+    induction h as [|c h IH]; intros s Hg Hs Hn.
+    - exists [], s. simpl. repeat split; auto. constructor.
+    - destruct c; simpl in *.
+      + destruct (step_c s Hg) as (b & s' & E & Hg' & Hb & _). rewrite E in *. destruct Hn as [Hnf Hn].
+        assert (Hs' : stopped s' = false).
+        { destruct (stopped s') eqn:Et; [|reflexivity]. exfalso. apply Hnf. apply (stp_c s b s' Hg E). rewrite Et, Hs. discriminate. }
+        destruct (IH s' Hg' Hs' Hn) as (os & sf & E2 & Hgf & Hsf & Hall). rewrite E2.
+        exists (OStep b :: os), sf. repeat split; auto. constructor; [rewrite Hb; exact Hs' | exact Hall].
+      + destruct (reset_c s Hg) as (s' & E & Hg' & Hs'). rewrite E in *.
+        destruct (IH s' Hg' Hs' Hn) as (os & sf & E2 & Hgf & Hsf & Hall). rewrite E2.
+        exists (OReset :: os), sf. repeat split; auto. constructor; [exact I | exact Hall].
+      + destruct (irq_c s Hg) as (s' & E & Hg' & Hs'). rewrite E in *.
+        assert (Hs2 : stopped s' = false) by (rewrite Hs'; exact Hs).
+        destruct (IH s' Hg' Hs2 Hn) as (os & sf & E2 & Hgf & Hsf & Hall). rewrite E2.
+        exists (OIrq :: os), sf. repeat split; auto. constructor; [exact I | exact Hall].
+      + destruct (nmi_c s Hg) as (s' & E & Hg' & Hs'). rewrite E in *.
+        assert (Hs2 : stopped s' = false) by (rewrite Hs'; exact Hs).
+        destruct (IH s' Hg' Hs2 Hn) as (os & sf & E2 & Hgf & Hsf & Hall). rewrite E2.
+        exists (ONmi :: os), sf. repeat split; auto. constructor; [exact I | exact Hall].
+  Qed.
+
+  (* "since the last Reset": whatever happened before (h1, from ANY good state, stopped or not), after a Reset every
+     Step reports false as long as no Step issued after that Reset fetches STP *)
+  Theorem stop_never_before_since_reset : forall h1 h2 s, good s ->
+    exists o1 s1, hrun (h1 ++ [CReset]) s = Some (o1, s1) /\ good s1 /\
+      (no_stp h2 s1 -> exists o2 sf, hrun h2 s1 = Some (o2, sf) /\ good sf /\ stopped sf = false /\ all_false o2).
+  Proof.
+    intros h1 h2 s Hg. destruct (stop_latched h1 s Hg) as (o1 & s1 & E1 & Hg1 & _).
+    destruct (reset_c s1 Hg1) as (s2 & E2 & Hg2 & Hs2).
+    exists (o1 ++ [OReset]), s2. split.
+    - rewrite hrun_app, E1. simpl. rewrite E2. reflexivity.
+    - split; [exact Hg2|]. intro Hn. exact (stop_never_before h2 s2 Hg2 Hs2 Hn).
+  Qed.
+
+  (* the contrapositive, as one reads it off a run: a Step that reports the stop condition although the previous
+     state was not stopped has fetched STP *)
+  Lemma stop_first_report : forall s b s', good s -> stopped s = false -> step s = Some (b, s') -> b = true -> stp_fetched s.
+  Proof.
+    intros s b s' Hg Hs E Hb. destruct (step_c s Hg) as (b0 & s0 & E0 & _ & Hb0 & _). rewrite E in E0. injection E0 as Eb Es.
+    rewrite <- Es, <- Eb in Hb0. apply (stp_c s b s' Hg E). rewrite <- Hb0, Hb, Hs. discriminate.
+  Qed.
 End Stop.
 
 (* non-vacuity: a toy interpreter (state = (stopped, program counter); the instruction at 3 is STP) meets the four
@@ -205,4 +269,21 @@ Proof.
   split.
   - intros [st pc] _. unfold toy_step; simpl. destruct (Nat.eqb pc 3); eexists; eexists; repeat split; auto.
   - intros s _. eexists; repeat split.
+Qed.
+
+(* non-vacuity of [stop_never_before]: in the toy interpreter "fetches STP" = the program counter is 3; the history
+   Step Step Step from pc 0 has no such Step and reports f f f; the fourth Step (pc = 3) is excluded by [no_stp] *)
+Example toy_never_before :
+  no_stp (bool * nat) toy_step toy_reset toy_int toy_int (fun s => snd s = 3) [CStep; CStep; CStep] (false, 0) /\
+  ~ no_stp (bool * nat) toy_step toy_reset toy_int toy_int (fun s => snd s = 3) [CStep; CStep; CStep; CStep] (false, 0).
+Proof.
+  split.
+  - simpl. repeat split; discriminate.
+  - simpl. intros (_ & _ & _ & H & _). apply H. reflexivity.
+Qed.
+Example toy_stp_contract : forall s b s', True -> toy_step s = Some (b, s') -> fst s' <> fst s -> snd s = 3.
+Proof.
+  intros [st pc] b s' _ E Hne. unfold toy_step in E. simpl in E. destruct (Nat.eqb pc 3) eqn:E3.
+  - apply PeanoNat.Nat.eqb_eq in E3. exact E3.
+  - inversion E; subst. simpl in Hne. contradiction Hne. reflexivity.
 Qed.
